@@ -602,3 +602,104 @@ def check_truncated(run, c, t, s, line, o):
     else:
         run.violation("ext:oracle:truncated(%s)" % s, dict(rp, what="an older version of the type does not get the known part of the value back, or not all octets are consumed",
                                                           expected=want, model=m0, standard=m1))
+
+
+# ---------------------------------------------------------------- C03
+
+def pad_value(c, x_big):
+    """the value of an older sender as the newer type x_big reads it: the further additions absent"""
+    if c["x"]["kind"] != "seq":
+        return c["vs"]
+    return c["vs"][:-1] + "_" * (x_big["nadd"] - c["x"]["nadd"]) + "}"
+
+
+def run_c03(run, rng, tier):
+    """C03 (decoders accept every valid encoding), extensible types: encodings from a NEWER sender (additions the
+    reader does not know are skipped) and from an OLDER sender (presence bitmap / addition count shorter than the
+    reader's list of additions: the missing ones are absent)"""
+    t0 = time.time()
+    rng = own_rng(run, 3)
+    try:
+        model = model_build()
+        mods, tb = build(run, rng, tier, "extc03")
+        cases = make_cases(mods, rng, tier)
+        if tier == "quick":
+            cases = [c for c in cases if not c["cat"].startswith("size") or int(c["cat"].split(":")[1]) <= 20000]
+        cases = model_encode(model, cases)
+        model_decode(model, cases, rng)
+    except (BuildError, RuntimeError) as e:
+        run.violation("ext:build", {"what": str(e)[-2500:]}, no_input=True)
+        return
+    # older sender -> newer readers of the same family
+    mlines, mslots = [], []
+    for c in cases:
+        m = c["m"]
+        fam = sorted([tn for tn in m["x"] if m["x"][tn]["family"] == c["x"]["family"] and m["x"][tn]["nadd"] > c["x"]["nadd"]],
+                     key=lambda tn: m["x"][tn]["nadd"])
+        c["old"] = []
+        if not fam or len(c["der"]) // 2 > BIG:
+            continue
+        pick = sorted(set([fam[0], fam[-1], rng.choice(fam)]), key=fam.index)
+        for tn2 in pick:
+            x2 = m["x"][tn2]
+            o = {"tn": tn2, "x": x2, "pvs": pad_value(c, x2)}
+            c["old"].append(o)
+            e2 = x2["ety"]
+            for key, line in (("xder", "xder %s %s" % (e2, o["pvs"])), ("ber", "xberdec %s %s" % (e2, c["der"])),
+                              ("uper0", "xuperdec 0 %s %s" % (e2, c["uper"])), ("uper1", "xuperdec 1 %s %s" % (e2, c["uper"])),
+                              ("oer0", "xoerdec 0 %s %s" % (e2, c["oer"])), ("oer1", "xoerdec 1 %s %s" % (e2, c["oer"]))):
+                if key.startswith("uper") and (c["uper"] == "NONE" or c["uper"] != c["uperstd"]):
+                    continue
+                if key.startswith("oer") and c["oer"] == "NONE":
+                    continue
+                mlines.append(line)
+                mslots.append((o, key))
+    out = model_lines(model, mlines, "older")
+    for (o, key), r in zip(mslots, out):
+        o[key] = r
+    bym = {}
+    for c in cases:
+        bym.setdefault(c["m"]["name"], []).append(c)
+    for m in mods:
+        cs = bym.get(m["name"], [])
+        if not cs or not m.get("exe"):
+            continue
+        lines, meta = [], []
+        for c in cs:
+            for t in c["tr"]:
+                if t["tv"] is not None or c["x"]["kind"] == "seq":
+                    lines.append("dec %s ber %s" % (t["tn"], c["der"])); meta.append(("tr", c, (t, "ber")))
+                if c["uper"] != "NONE" and c["uper"] == c["uperstd"]:
+                    lines.append("dec %s uper %s" % (t["tn"], c["uper"])); meta.append(("tr", c, (t, "uper")))
+                if c["oer"] != "NONE":
+                    lines.append("dec %s oer %s" % (t["tn"], c["oer"])); meta.append(("tr", c, (t, "oer")))
+            for o in c["old"]:
+                for s, key in (("ber", "der"), ("uper", "uper"), ("oer", "oer")):
+                    if (s + ("" if s == "ber" else "0")) in o:
+                        lines.append("dec %s %s %s" % (o["tn"], s, c[key])); meta.append(("old", c, (o, s, key)))
+        if not lines:
+            continue
+        t1 = time.time()
+        out = run_mod(run, m, lines, "ext:C03")
+        TIMES["c_" + m["name"]] = round(time.time() - t1, 1)
+        for (kind, c, extra), line, o in zip(meta, lines, out):
+            run.case("ext:" + m["name"] + ":" + line[:300] + str(len(line)))
+            if kind == "tr":
+                t, s = extra
+                check_truncated(run, c, t, s, line, o)
+                continue
+            od, s, key = extra
+            run.count("ext_old_" + s)
+            nb = len(c[key]) // 2
+            want = "OK %d %s" % (nb, od["xder"])
+            rp = replay_of(c, newer_type=od["tn"], newer_model_type=od["x"]["ety"], syntax=s, command_line=line, c=o, expected=want)
+            m0 = od.get("ber" if s == "ber" else s + "0")
+            m1 = od.get("ber" if s == "ber" else s + "1")
+            mwant = "OK %d %s" % (nb, od["pvs"])
+            for mm, nm in ((m0, "model of the C"), (m1, "standard reading of the model")):
+                if mm != mwant and not (has_setof(c) and mm.startswith("OK %d " % nb)):
+                    run.violation("ext:model:older-sender(%s)" % s, dict(rp, what="the %s does not read an older sender's encoding as the value with the further additions absent (model defect)" % nm, model=mm, model_expected=mwant), no_input=True)
+            if not o.startswith(want + " ck="):
+                run.violation("ext:oracle:older-sender(%s)" % s,
+                              dict(rp, what="a valid encoding from an older version of the type (fewer additions than the reader knows) is not decoded to the value with the missing additions absent", model=m0))
+    run.count("ext_wall_s", int(time.time() - t0))
